@@ -6,7 +6,9 @@ T2 for the lock-protocol proof: REAL threads run the REAL library one bytecode a
   * the PROPERTY'S OWN ORACLE on the real code, independent of the Lean model: final value of every series = sum of the
     increments issued; concurrent labels() with equal values returned the identical child (`is`); no exception in any thread;
     no deadlock; every value a concurrent collect reported is one the series actually held (the raw attribute is sampled at
-    every scheduling step) and successive collects never see a counter decrease;
+    every scheduling step) and successive collects never see a counter decrease; for the file-backed back-end the store
+    FILES are read back after the threads joined (MmapedDict.read_all_values_from_file on every *.db) and every
+    counter / summary / histogram cell in the file must equal the sum of the increments issued as well;
   * CORRESPONDENCE with the model: the canonical outcome of the run must lie in the outcome set the Lean model computes for
     that program at skeleton granularity (`c02 outcomes …`, all interleavings of the micro-steps of the skeletons extracted
     from the CURRENT tree) — this validates the skeleton abstraction against bytecode reality.
@@ -27,7 +29,9 @@ import lib
 import sched
 
 # ------------------------------------------------------------------------------------------------ programs
-# op syntax shared with the driver:  inc:o:a get:o lab:k linc:k:a rem:k clr reg:c unreg:c col rcol:c   (+ oracle-only obs:s:a obs:h:a)
+# op syntax shared with the driver:  inc:o:a get:o lab:k linc:k:a rem:k clr reg:c unreg:c col rcol:c rrcol:c  (+ oracle-only obs:s:a obs:h:a)
+# rcol:c  = registry.collect() over a collector that registers/unregisters x<c> and does a restricted lookup and a
+#           get_target_info from inside its collect();  rrcol:c = registry.restricted_registry(['e']).collect() over the same collector
 QUICK_PROGRAMS = [
     # (world, program, bound, model?)
     ('c', 'inc:0:1|inc:0:2', 2, True),
@@ -38,6 +42,7 @@ QUICK_PROGRAMS = [
     ('p', 'lab:0,rem:0|lab:0|clr', 1, True),
     ('c', 'reg:1,unreg:1|col', 1, True),
     ('ce', 'rcol:1|reg:2', 1, True),
+    ('ce', 'rrcol:1|reg:2', 1, True),
     ('s', 'obs:s:2|obs:s:3|col', 1, False),
     ('h', 'obs:h:1|obs:h:2', 1, False),
 ]
@@ -45,6 +50,8 @@ THOROUGH_PROGRAMS = [
     ('c', 'inc:0:1|inc:0:2|col', 2, True),
     ('c', 'reg:1|reg:2,unreg:2|col', 2, True),
     ('ce', 'rcol:1|col', 2, True),
+    ('ce', 'rrcol:1|rcol:2', 2, True),
+    ('ce', 'rrcol:1|rrcol:2|col', 2, True),
     ('c', 'inc:0:1,inc:0:2,inc:0:4|inc:0:8,inc:0:16|col,col', 3, True),
     ('c', 'inc:0:1|inc:0:2|inc:0:4', 3, True),
     ('cp', 'linc:0:1,inc:0:1|linc:0:2,col|lab:0', 3, True),
@@ -102,7 +109,8 @@ class ReentrantCollector:
         self.world = world
 
     def describe(self):
-        return []
+        from prometheus_client.metrics_core import GaugeMetricFamily
+        return [GaugeMetricFamily('e', 'h')]          # claims the name `e`, so restricted_registry(['e']) selects it
 
     def collect(self):
         c = getattr(self.world.tls, 're', None)
@@ -248,6 +256,13 @@ def make_thunk(w, tid, ops, log):
                 w.tls.re = None
             toks, vals = collect_obs(w, fams)
             return toks[:1], vals
+        if k == 'rrcol':
+            w.tls.re = int(f[1])
+            try:
+                list(w.R.restricted_registry(['e']).collect())
+            finally:
+                w.tls.re = None
+            return [], None
         if k == 'obs':
             (w.s if f[1] == 's' else w.h).observe(float(f[2]))
             return [], None
@@ -295,6 +310,19 @@ def run_once(backend, flags, program, policy):
             w.close()
 
 
+def read_files(w):
+    """the file-backed store as it is ON DISK: {(sample name, label items): value}, read with the library's own reader"""
+    from prometheus_client.mmap_dict import MmapedDict
+    out = {}
+    for fn in sorted(os.listdir(w.tmp)):
+        if not fn.endswith('.db'):
+            continue
+        for key, value, ts, _pos in MmapedDict.read_all_values_from_file(os.path.join(w.tmp, fn)):
+            metric_name, name, labels, _help = json.loads(key)
+            out[(name, tuple(sorted((str(a), str(b)) for a, b in labels.items())))] = value
+    return out
+
+
 def final_state(w):
     fams = list(w.R.collect())
     vals = {}
@@ -302,6 +330,7 @@ def final_state(w):
         for s in f.samples:
             vals[(s.name, tuple(sorted(s.labels.items())))] = s.value
     st = {'vals': vals}
+    st['files'] = read_files(w) if w.backend == 'mmap' else None
     st['keys'] = {k[0]: id(ch) for k, ch in (w.p._metrics.items() if w.p is not None else [])}
     st['regs'] = sorted(x.i for x in w.R._collector_to_names if isinstance(x, XCollector))
     return st
@@ -402,35 +431,54 @@ def oracle(program, res, obs):
             return ('C02:exception', 'thread %d raised %s: %s' % (tid, type(e).__name__, e))
     if obs['final'] is None:
         return ('C02:final-collect', 'the final collect failed: %s' % obs['final_err'])
-    vals = obs['final']['vals']
     ops = [op.split(':') for t in program.split('|') for op in t.split(',')]
     dyn = any(f[0] in ('rem', 'clr') for f in ops)
-    # final values = sum of increments
+    r = sums_oracle(ops, dyn, obs['final']['vals'], 'C02:lost-update', '')
+    if r:
+        return r
+    if obs['final'].get('files') is not None:
+        r = sums_oracle(ops, dyn, obs['final']['files'], 'C02:lost-update-in-file', 'in the store FILE: ')
+        if r:
+            return r
+    return identity_and_collect_oracle(ops, dyn, obs)
+
+
+def sums_oracle(ops, dyn, vals, sig, where):
+    """final value of every series = sum of the increments issued (vals: the collected view, or the files read back)"""
     want_c = sum(int(f[2]) for f in ops if f[0] == 'inc')
     if any(f[0] == 'inc' for f in ops):
         got = vals.get(('c_total', ()))
         if got != want_c:
-            return ('C02:lost-update', 'counter c: final value %r, sum of the increments issued %r' % (got, want_c))
+            return (sig, where + 'counter c: final value %r, sum of the increments issued %r' % (got, want_c))
     if not dyn:
         for k in sorted({f[1] for f in ops if f[0] == 'linc'}):
             want = sum(int(f[2]) for f in ops if f[0] == 'linc' and f[1] == k)
             got = vals.get(('p_total', (('l', k),)))
             if got != want:
-                return ('C02:lost-update', 'child p{l=%s}: final value %r, sum of the increments issued %r' % (k, got, want))
+                return (sig, where + 'child p{l=%s}: final value %r, sum of the increments issued %r' % (k, got, want))
     sobs = [float(f[2]) for f in ops if f[0] == 'obs' and f[1] == 's']
     if sobs:
         if vals.get(('s_count', ())) != len(sobs) or vals.get(('s_sum', ())) != sum(sobs):
-            return ('C02:lost-update', 'summary: count/sum %r/%r, expected %r/%r' % (
+            return (sig, where + 'summary: count/sum %r/%r, expected %r/%r' % (
                 vals.get(('s_count', ())), vals.get(('s_sum', ())), len(sobs), sum(sobs)))
     hobs = [float(f[2]) for f in ops if f[0] == 'obs' and f[1] == 'h']
     if hobs:
-        exp = {'1.0': sum(1 for x in hobs if x <= 1), '2.0': sum(1 for x in hobs if x <= 2), '+Inf': len(hobs)}
+        in_file = bool(where)
+        if in_file:          # the file holds each bucket's own count; _count is derived at collection time
+            exp = {'1.0': sum(1 for x in hobs if x <= 1), '2.0': sum(1 for x in hobs if 1 < x <= 2),
+                   '+Inf': sum(1 for x in hobs if x > 2)}
+        else:
+            exp = {'1.0': sum(1 for x in hobs if x <= 1), '2.0': sum(1 for x in hobs if x <= 2), '+Inf': len(hobs)}
         for le, n in exp.items():
             if vals.get(('hh_bucket', (('le', le),))) != n:
-                return ('C02:lost-update', 'histogram bucket le=%s: %r, expected %r' % (le, vals.get(('hh_bucket', (('le', le),))), n))
-        if vals.get(('hh_sum', ())) != sum(hobs) or vals.get(('hh_count', ())) != len(hobs):
-            return ('C02:lost-update', 'histogram sum/count %r/%r, expected %r/%r' % (
+                return (sig, where + 'histogram bucket le=%s: %r, expected %r' % (le, vals.get(('hh_bucket', (('le', le),))), n))
+        if vals.get(('hh_sum', ())) != sum(hobs) or (not in_file and vals.get(('hh_count', ())) != len(hobs)):
+            return (sig, where + 'histogram sum/count %r/%r, expected %r/%r' % (
                 vals.get(('hh_sum', ())), vals.get(('hh_count', ())), sum(hobs), len(hobs)))
+    return None
+
+
+def identity_and_collect_oracle(ops, dyn, obs):
     # one shared child
     if not dyn:
         seen = {}
